@@ -491,3 +491,27 @@ func verifLemma_C14_tags_overlay_snapshot(v string, w string, x string, y string
 	verifrt.Assert(live.FindFeatureByID(id1.FeatureID()).Get("a").Value.String() == w && live.FindFeatureByID(id1.FeatureID()).Get("b").Value.String() == y && live.FindFeatureByID(id2.FeatureID()).Get("c").Value.String() == x, "live-world-shows-everything")
 	verifrt.Assert(s1.FindFeatureByID(FromOSMRelationID(9).FeatureID()) == nil, "absent-feature-stays-absent")
 }
+
+// C12 (bounded history): the same through the world API. The real MutableOverlayWorld over
+// a two-feature list world (test double); keys are plain (not searchable), so edits of base
+// features go to the tag-modification layer. Reads through FindFeatureByID after every
+// step show what a per-feature map would hold, including setting a key back to the value
+// the base has and setting a key again after removing it; editing an absent feature is an
+// error.
+func verifLemma_C12_overlay_world_plain_tags(v string, x string) {
+	id1, id2 := FromOSMRelationID(1), FromOSMRelationID(2)
+	base1 := &RelationFeature{RelationID: id1, Tags: b6.Tags{{Key: "a", Value: b6.NewStringExpression("1")}, {Key: "b", Value: b6.NewStringExpression("2")}}}
+	base2 := &RelationFeature{RelationID: id2, Tags: b6.Tags{{Key: "a", Value: b6.NewStringExpression("3")}}}
+	w := NewMutableOverlayWorld(vListWorld{fs: []b6.Feature{base1, base2}})
+	verifrt.Assert(w.AddTag(id1.FeatureID(), b6.Tag{Key: "a", Value: b6.NewStringExpression(v)}) == nil, "set-succeeds")
+	verifrt.Assert(w.FindFeatureByID(id1.FeatureID()).Get("a").Value.String() == v, "set-replaces-the-value")
+	verifrt.Assert(w.FindFeatureByID(id2.FeatureID()).Get("a").Value.String() == "3", "other-feature-unaffected")
+	verifrt.Assert(w.RemoveTag(id1.FeatureID(), "b") == nil, "remove-succeeds")
+	verifrt.Assert(!w.FindFeatureByID(id1.FeatureID()).Get("b").IsValid(), "removed-key-reads-as-absent")
+	verifrt.Assert(w.AddTag(id1.FeatureID(), b6.Tag{Key: "b", Value: b6.NewStringExpression(x)}) == nil, "set-after-remove-succeeds")
+	verifrt.Assert(w.FindFeatureByID(id1.FeatureID()).Get("b").Value.String() == x, "set-after-remove-is-visible")
+	verifrt.Assert(w.AddTag(id1.FeatureID(), b6.Tag{Key: "a", Value: b6.NewStringExpression("1")}) == nil, "set-back-succeeds")
+	verifrt.Assert(w.FindFeatureByID(id1.FeatureID()).Get("a").Value.String() == "1", "set-back-to-the-base-value-is-visible")
+	verifrt.Assert(w.AddTag(FromOSMRelationID(9).FeatureID(), b6.Tag{Key: "a", Value: b6.NewStringExpression(v)}) != nil, "absent-feature-is-an-error")
+	verifrt.Assert(w.FindFeatureByID(FromOSMRelationID(9).FeatureID()) == nil, "absent-feature-stays-absent")
+}
